@@ -11,7 +11,10 @@ A workflow (dict) has the keys comps / gvars / svars (the default platform) and 
   ctor       platform given to FlowIRConcrete(...)          req   platform given to replicate(platform=...)
   entry      'concrete' (default) | 'direct' (FlowIR.apply_replicate)
 and a component optionally  agg_sp  (workflowAttributes.aggregate as written: bool / text / '%(v)s'; when absent the
-boolean `agg` is written as true / left out),  over  {P: {'rep': ..., 'agg_sp': ..., 'vars': {...}}}  (override.P)."""
+boolean `agg` is written as true / left out),  over  {P: {'rep': ..., 'agg_sp': ..., 'vars': {...}}}  (override.P),
+extra  {slot: text}  (strings in other sections of the definition, see SLOTS).  The values of cvars / override
+variables and of `extra` may spell references (used as %(v)s in command.arguments): replication rewrites EVERY string
+of a component, and every one is observed."""
 import json
 
 from common import clist, cstr, cbool, copt, cpair
@@ -32,6 +35,11 @@ ASSUMPTIONS = [
     'runs AFTER the expansion refuses them (convert_component_types knows no y/n; the schema check refuses the '
     'replicate the copies carry in their override section and any aggregate there that is not a YAML boolean), which '
     'is outside this property; those workflows are expanded through FlowIRConcrete.replicate() only',
+    'besides name / references / arguments the strings read back from every returned component are its variables and '
+    '8 places of the definition (command.executable / environment / interpreter, executors pre / post payload, '
+    'resourceManager kubernetes.image / lsf.queue / lsf.resourceString); workflows that fill those places are not driven '
+    'through graphFromFlowIR (its validation of these sections is outside this property); the expected text of a copy is '
+    'defined token-wise (a token = a declared spelling, optionally followed by /path) outside the open finding classes',
     'workflows are generated acyclic (the model receives the components in a topological order, the implementation '
     'receives them grouped by stage as FlowIRConcrete stores them)',
     'the structured theorems are over parsed references; the textual layer is tied to them by C03_textual_refines '
@@ -41,7 +49,7 @@ ASSUMPTIONS = [
     'rt_ok) are evaluated inside Coq on every case by struct_check together with the conclusions; argument strings of '
     'aggregators and the parse/print round trip (rt_ok) are covered by the correspondence, not by a theorem',
 ]
-HEADER = 'Require Import V.Repl.Model V.Repl.Platform.\nOpen Scope string_scope.'
+HEADER = 'Require Import V.Repl.Model V.Repl.Platform V.Repl.Everywhere.\nOpen Scope string_scope.'
 
 METHODS = ['ref', 'copy', 'output', 'link', 'extract']
 NAMES = ['A', 'B', 'BA', 'AB', 'A0', 'A1', 'A00', 'a', 'a1', 'B0', 'AA', 'x-A', 'A_B', 'C', 'D', 'Ca', '0', '1', 'A10']
@@ -50,6 +58,36 @@ FILES = [None, None, None, 'out.txt', 'd/f.dat', 'A', 'ref']
 OTHER_REFS = ['data/file.txt:copy', 'input/x.csv:ref', '/abs/path/file:ref', 'conf/A:ref', 'bin/tool:ref',
               'data/A:ref', 'input/stage0.A:ref']
 FILLER = ['-n', '3', '--in', 'x', '-v', 'A', 'stage0', '--f=y']
+# where else a component definition holds free text that may spell a reference (label = path in the definition)
+SLOTS = ['command.executable', 'command.environment', 'command.interpreter', 'executors.pre.0.payload',
+         'executors.post.0.payload', 'resourceManager.kubernetes.image', 'resourceManager.lsf.queue',
+         'resourceManager.lsf.resourceString']
+REF_VARS = ['conf', 'inp', 'src', 'restart', 'in-2']
+SUFFIXES = ['/out.txt', '/d/x.dat', '/a/b/c', '/o.txt,', '/*.csv']
+
+
+def slot_set(d, label, val):
+    parts = label.split('.')
+    if parts[0] == 'executors':
+        d.setdefault('executors', {}).setdefault(parts[1], []).append(
+            {'name': 'lsf-dm-in' if parts[1] == 'pre' else 'lsf-dm-out', 'payload': val})
+        return
+    cur = d
+    for k in parts[:-1]:
+        cur = cur.setdefault(k, {})
+    cur[parts[-1]] = val
+
+
+def slot_get(d, label):
+    cur = d
+    for k in label.split('.'):
+        if isinstance(cur, list):
+            cur = cur[int(k)] if int(k) < len(cur) else None
+        elif isinstance(cur, dict):
+            cur = cur.get(k)
+        else:
+            return None
+    return cur
 
 
 # ------------------------------------------------------------------ reference helpers (spec side)
@@ -394,7 +432,7 @@ def effective(wf):
             else:
                 return ('error', 'aggregate-not-a-boolean')
         comps.append({'stage': st, 'name': c['name'], 'refs': c['refs'], 'args': c['args'], 'rep': rep, 'agg': flag,
-                      'cvars': {}})
+                      'cvars': {}, 'evars': {k: str(v) for k, v in cv.items()}, 'extra': dict(c.get('extra', {}))})
     return ('ok', {'comps': comps, 'gvars': {}, 'svars': {}})
 
 
@@ -402,6 +440,8 @@ def graph_safe(wf):
     """the validation after the expansion (not part of this property) accepts the workflow: see ASSUMPTIONS"""
     p = target_platform(wf)
     words = []
+    if any(c.get('extra') for c in wf['comps']):
+        return False
     for c in wf['comps']:
         words.append(written_flag(c))
         words += list(c['cvars'].values())
@@ -554,6 +594,57 @@ def decorate(rng, wf):
     return wf
 
 
+def ref_text(rng, c, single=False):
+    """a text that spells references the component declares - as declared or in the other spelling, as they are or
+    with a path after the method - between words that are no references"""
+    st = c['stage']
+    refs = list(c['refs'])
+    rng.shuffle(refs)
+    toks = []
+    for t in refs[:1 if single else rng.choice([1, 1, 1, 2])]:
+        use = t
+        ps = parse_spec(t, st)
+        if ps[0] != 'other' and ps[0] == st and rng.random() < 0.4:
+            use = compile_ref(None if t.startswith('stage') else ps[0], ps[1], ps[2], ps[3])
+        if rng.random() < 0.35:
+            use += rng.choice(SUFFIXES)
+        if not single and rng.random() < 0.3:
+            toks.append(rng.choice(FILLER))
+        toks.append(use)
+    return ' '.join(toks)
+
+
+def sprinkle(rng, wf, p_comp=0.5):
+    """dimension 3: WHERE a component spells its producers besides `references` and command.arguments - in its own
+    variables (used as %(v)s on the command line; on a second platform also in override.<platform>.variables, with or
+    without another spelling in the definition) and in other sections of the definition (SLOTS)"""
+    plat = wf['platforms'][1] if 'platforms' in wf and wf.get('entry', 'concrete') != 'direct' else None
+    for c in wf['comps']:
+        if not c['refs'] or rng.random() >= p_comp:
+            continue
+        if rng.random() < 0.8:
+            for _ in range(rng.choice([1, 1, 2])):
+                free = [v for v in REF_VARS if v not in c['cvars']]
+                if not free:
+                    break
+                v = rng.choice(free)
+                if plat is not None and rng.random() < 0.3:
+                    c.setdefault('over', {}).setdefault(plat, {}).setdefault('vars', {})[v] = ref_text(rng, c)
+                    if rng.random() < 0.5:
+                        c['cvars'][v] = ref_text(rng, c)
+                    else:
+                        c['cvars'][v] = 'none'
+                else:
+                    c['cvars'][v] = ref_text(rng, c)
+                toks = c['args'].split(' ') if c['args'] else []
+                toks.insert(rng.randrange(len(toks) + 1), '%%(%s)s' % v)
+                c['args'] = ' '.join(toks)
+        if rng.random() < 0.4:
+            for lab in rng.sample(SLOTS, rng.choice([1, 1, 2])):
+                c.setdefault('extra', {})[lab] = ref_text(rng, c, single=lab in ('command.executable', 'command.environment'))
+    return wf
+
+
 # ------------------------------------------------------------------ driving the implementation
 def to_flowir(wf, order=None):
     comps = []
@@ -585,6 +676,8 @@ def to_flowir(wf, order=None):
                 od['variables'] = dict(o['vars'])
             if od:
                 d.setdefault('override', {})[p] = od
+        for lab, val in sorted(c.get('extra', {}).items()):
+            slot_set(d, lab, val)
         comps.append(d)
     var = {'global': dict(wf['gvars'])}
     if wf['svars']:
@@ -620,11 +713,26 @@ def run_replicate(wf, order=None):
     except Exception as e:
         return ('error', type(e).__name__)
     out = []
+    by = {(c['stage'], c['name']): c for c in wf['comps']}
     for c in rep['components']:
         va = c.get('variables', {}) or {}
         wa = c.get('workflowAttributes', {}) or {}
+        # the component of the input this one was made from (only to know which other strings to read back)
+        org = None
+        sfx = str(va.get('replica'))
+        if 'replica' in va and c['name'].endswith(sfx):
+            org = by.get((c['stage'], c['name'][:-len(sfx)]))
+        if org is None:
+            org = by.get((c['stage'], c['name']))
+        extra = None
+        if org is not None:
+            extra = {}
+            for lab in sorted(org.get('extra', {})):
+                x = slot_get(c, lab)
+                extra[lab] = x if isinstance(x, str) else '<%r>' % (x,)
         out.append((c['stage'], c['name'], list(c.get('references', []) or []), c.get('command', {}).get('arguments', ''),
-                    va.get('replica'), wa.get('replicate'), wa.get('aggregate')))
+                    va.get('replica'), wa.get('replicate'), wa.get('aggregate'),
+                    {str(k): str(v) for k, v in va.items() if k != 'replica'}, extra))
     return ('ok', out)
 
 
@@ -717,11 +825,22 @@ def coq_out(im):
     if im[0] == 'error':
         return '(@None (list ocomp))'
     os_ = []
-    for (st, nm, refs, args, replica, replicate, agg) in im[1]:
+    for (st, nm, refs, args, replica, replicate, agg, _va, _ex) in im[1]:
         os_.append('{| o_stage := %s; o_name := %s; o_refs := %s; o_args := %s; o_replica := %s; o_replicate := %s |}'
                    % (cN(st), cstr(nm), clist(refs, cstr), cstr(args), copt(replica, cN),
                       copt(replicate if replica is not None else None, cN)))
     return '(Some %s)' % clist(os_)
+
+
+def coq_xs(wf):
+    return clist([c.get('extra', {}) for c in wf['comps']], cassoc)
+
+
+def coq_ximpl(im):
+    # nothing to compare when no component of the result carries a variable or one of the other strings
+    if im[0] == 'error' or any(o[8] is None for o in im[1]) or not any(o[7] or o[8] for o in im[1]):
+        return '(@None (list ximpl))'
+    return '(Some %s)' % clist(im[1], lambda o: '(%s, %s, %s, %s)' % (cN(o[0]), cstr(o[1]), cassoc(o[7]), cassoc(o[8])))
 
 
 def coq_graph(g):
@@ -731,7 +850,85 @@ def coq_graph(g):
 
 
 # ------------------------------------------------------------------ property predicate on the implementation's output
-def predicate(ctx, wf, sp, im, g, cls):
+TOKEN_REF = None
+
+
+def names_component(tok, stage):
+    """(stage, producer) when the token reads as [stageN.]producer[/file]:method[/path], else None"""
+    global TOKEN_REF
+    import re
+    if TOKEN_REF is None:
+        TOKEN_REF = re.compile(r'^(?:stage([0-9]+)[.])?([A-Za-z0-9_-]+)(?:/[^:]*)?:[a-z]+(?:[/,].*)?$')
+    m = TOKEN_REF.match(tok)
+    if m is None or m.group(2) in SPECIAL:
+        return None
+    return (int(m.group(1)) if m.group(1) is not None else stage, m.group(2))
+
+
+def spec_string(c, info, i, text):
+    """what copy i of component c must read where the definition reads `text`: a blank-separated token that is a
+    declared spelling of a replicated producer (either spelling, possibly followed by a path) names copy i of that
+    producer, in the absolute spelling; every other token is as written"""
+    table = []
+    for t in c['refs']:
+        ps = parse_spec(t, c['stage'])
+        r = info.get((ps[0], ps[1])) if ps[0] != 'other' else None
+        if r is None or r[1] or not r[0]:
+            continue
+        new = compile_ref(ps[0], ps[1], ps[2], ps[3], i)
+        table += [(compile_ref(ps[0], ps[1], ps[2], ps[3]), new), (compile_ref(None, ps[1], ps[2], ps[3]), new)]
+    out = []
+    for tok in text.split(' '):
+        for k, new in table:
+            if tok == k or tok.startswith(k + '/'):
+                tok = new + tok[len(k):]
+                break
+        out.append(tok)
+    return ' '.join(out)
+
+
+def predicate_strings(ctx, case, efw, info, out, im, cls):
+    """copy i consumes from copy i of each replicated producer WHEREVER the definition spells the producer (a
+    variable that ends up on the command line, the executable, an executors payload ...); outside the replicated
+    region every string is as written; no string of the result names a component that was replaced by its copies.
+    Evaluated outside the classes of the open findings (there the expected text is not defined by the tokens)."""
+    if cls:
+        return
+    comps = {(c['stage'], c['name']): c for c in efw['comps']}
+    made = {(o['stage'], o['name']): o for o in out}
+    gone = set(k for k, (r, a) in info.items() if r and not a)
+    for o in im[1]:
+        so = made.get((o[0], o[1]))
+        if so is None or o[8] is None:
+            continue
+        c = comps[so['origin']]
+        seen = [('variables.' + k, c['evars'].get(k), v) for k, v in sorted(o[7].items())]
+        seen += [('variables.' + k, v, None) for k, v in sorted(c['evars'].items()) if k not in o[7]]
+        seen += [(lab, c['extra'].get(lab), v) for lab, v in sorted(o[8].items())]
+        for lab, written, got in seen:
+            if written is None or got is None:
+                ctx.fail(case, 'the variables of a component of the expansion are not those of its definition', cls)
+                return
+            if c['agg']:
+                pass
+            elif so['replica'] is not None:
+                if got != spec_string(c, info, so['replica'], written):
+                    ctx.fail(case, 'a string of copy i outside `references` (a variable, executable, environment, '
+                                   'executors or resourceManager text) does not name copy i of the replicated producer '
+                                   'it spells: %s of stage%d.%s' % (lab, o[0], o[1]), cls)
+                    return
+            elif got != written:
+                ctx.fail(case, 'a string of a component outside the replicated region was changed', cls)
+                return
+            for tok in got.split():
+                pid = names_component(tok, o[0])
+                if pid in gone and pid not in made:
+                    ctx.fail(case, 'a string of the expansion (%s of stage%d.%s) names a component that does not exist: '
+                                   'it was replaced by its copies' % (lab, o[0], o[1]), cls)
+                    return
+
+
+def predicate(ctx, wf, sp, im, g, cls, efw=None):
     """the property as stated, evaluated on what the real code returned"""
     case = {'workflow': wf}
     if sp[0] == 'error':
@@ -766,6 +963,8 @@ def predicate(ctx, wf, sp, im, g, cls):
             if pr[0] == 'unparsable' or (pr[0] != 'other' and (pr[0], pr[1]) not in known):
                 ctx.fail(case, 'a reference in the expansion names a component that does not exist', cls)
                 break
+    if efw is not None:
+        predicate_strings(ctx, case, efw, info, out, im, cls)
     if g is not None:
         if g[0] != 'ok':
             ctx.fail(case, 'the replicated graph of a well-formed workflow could not be built (%s)' % g[1], cls)
@@ -831,21 +1030,32 @@ def explore(ctx, cases, with_graph=True):
             if any(ec['agg'] and ec['rep'] is None and not isinstance(written_flag(c), bool)
                    for c, ec in zip(wf['comps'], ef[1]['comps'])):
                 ctx.count('aggregator_without_own_count_flag_not_a_literal_bool')
-        predicate(ctx, wf, sp, im, g, cls)
-        terms.append(('(%s, %s, %s, %s)' % (coq_rwf(wf), coq_entry(wf), coq_out(im), coq_graph(g)), wf, im, g))
+        predicate(ctx, wf, sp, im, g, cls, ef[1] if ef[0] == 'ok' else None)
+        where = set()
+        for c in wf['comps']:
+            vals = list(c['cvars'].values()) + [x for o in c.get('over', {}).values() for x in o.get('vars', {}).values()]
+            if any(isinstance(x, str) and ':' in x for x in vals):
+                where.add('a_variable')
+            for lab in c.get('extra', {}):
+                where.add(lab.split('.')[0])
+        for x in sorted(where):
+            ctx.count('reference_spelled_in_' + x)
+        terms.append(('((%s, %s, %s, %s), %s, %s)' % (coq_rwf(wf), coq_entry(wf), coq_out(im), coq_graph(g), coq_xs(wf),
+                                                     coq_ximpl(im)), wf, im, g))
         if nontriv and not cls:
             ctx.sample({'workflow': to_flowir(wf), 'replicated': im[1] if im[0] == 'ok' else im[1]}, limit=3)
-    bad = ctx.model_mismatches(HEADER, [t[0] for t in terms], 'check_pcase', chunk=120)
+    bad = ctx.model_mismatches(HEADER, [t[0] for t in terms], 'check_xcase', chunk=120)
     for k, i in enumerate(bad):
         _, wf, im, g = terms[i]
         m = ''
         if k < 2:
             sel = 'select %s %s' % (coq_rwf(wf), cstr(target_platform(wf)))
-            m = ctx.model_eval(HEADER, '(%s, match %s with Some t => (struct_check t, expand_t t) | None => (true, None) end)'
-                               % (sel, sel))
+            m = ctx.model_eval(HEADER, '(%s, match %s with Some t => (struct_check t, expand_x t %s) | None => (true, None) end)'
+                               % (sel, sel, coq_xs(wf)))
         ctx.disagree({'workflow': wf}, {'replicate': im, 'graph': g}, m,
                      'C03 expansion: FlowIRConcrete.replicate(platform)/apply_replicate/graphFromFlowIR vs '
-                     'Repl.Platform.replicate_concrete = Repl.Model.expand_t of the selected workflow (+ structured agreement)')
+                     'Repl.Platform.replicate_concrete = Repl.Model.expand_t of the selected workflow (+ structured agreement; '
+                     'variables and the other strings of every component: Repl.Everywhere.expand_x)')
 
 
 WITNESS_F3 = {'gvars': {}, 'svars': {}, 'comps': [
@@ -906,6 +1116,30 @@ CORPUS = [
         _c(1, 'Tab', ['stage0.Sim:ref'])]},
     {'gvars': {}, 'svars': {}, 'platforms': ['default', 'hpc'], 'pvars': {'hpc': {'gvars': {}, 'svars': {}}},
      'ctor': 'default', 'req': 'nope', 'comps': [_c(0, 'Gen', rep=3), _c(0, 'Sim', ['Gen:ref'])]},
+    # the producer spelled in the consumer's own variables, used on the command line: path after the method, the
+    # other spelling of a reference with a file; the aggregator spells its input in a variable too
+    {'gvars': {}, 'svars': {}, 'comps': [
+        _c(0, 'Gen', rep=3),
+        _c(0, 'Sim', ['Gen:ref', 'stage0.Gen/r.bin:copy'], args='-c %(conf)s -n %(steps)s %(restart)s r.bin',
+           cvars={'conf': 'Gen:ref/conf.dat', 'restart': '-r Gen/r.bin:copy', 'steps': '10'}),
+        _c(0, 'Sum', ['Sim:output'], agg=True, args='%(inputs)s', cvars={'inputs': 'stage0.Sim:output'})]},
+    # a replication point that consumes another replicated producer across stages; the producer spelled in the
+    # executable, the environment, executors payloads and a resourceManager option; apply_replicate driven directly
+    {'gvars': {}, 'svars': {}, 'entry': 'direct', 'comps': [
+        _c(0, 'Obs', rep=2), _c(0, 'Tab'),
+        _c(1, 'Fit', ['stage0.Obs:ref', 'stage0.Tab:ref'], rep=2, args='%(src)s',
+           cvars={'src': 'stage0.Obs:ref/*.csv stage0.Tab:ref'},
+           extra={'command.executable': 'stage0.Obs:ref/bin/fit', 'command.environment': 'stage0.Obs:ref',
+                  'executors.pre.0.payload': '-s stage0.Obs:ref/d/x.dat', 'executors.post.0.payload': 'stage0.Tab:ref',
+                  'resourceManager.lsf.resourceString': 'stage0.Obs:ref'}),
+        _c(1, 'Plot', ['Fit:output'], agg=True, extra={'resourceManager.kubernetes.image': 'Fit:output'})]},
+    # the spelling in the variable differs per platform (override.<platform>.variables decides for that platform)
+    {'gvars': {}, 'svars': {}, 'platforms': ['default', 'hpc'], 'pvars': {'hpc': {'gvars': {}, 'svars': {}}},
+     'ctor': None, 'req': 'hpc', 'comps': [
+        _c(0, 'Gen', rep=2),
+        _c(0, 'Sim', ['Gen:ref', 'Gen/out.txt:copy'], args='%(inp)s', cvars={'inp': 'Gen/out.txt:copy'},
+           over={'hpc': {'vars': {'inp': 'stage0.Gen:ref/out.txt'}}}),
+        _c(1, 'Post', ['stage0.Sim:ref'], args='-i %(inp)s', cvars={'inp': 'stage0.Sim:ref/a/b/c'})]},
 ]
 
 
@@ -960,6 +1194,56 @@ def systematic(rng):
                         w2['req'] = req
                     out.append(w2)
             break
+    # every place x spelling x entry point of ONE reference of one generated replicated consumer
+    for _ in range(200):
+        wf = gen_workflow(rng, 'clean')
+        sp = spec_expand(wf)
+        if sp[0] != 'ok':
+            continue
+        info = sp[1]
+        pick = None
+        for k, c in enumerate(wf['comps']):
+            r, a = info[(c['stage'], c['name'])]
+            if a or not r or r < 2:
+                continue
+            for t in c['refs']:
+                ps = parse_spec(t, c['stage'])
+                if ps[0] != 'other' and info[(ps[0], ps[1])][0] and not info[(ps[0], ps[1])][1]:
+                    pick = (k, ps)
+                    break
+            if pick:
+                break
+        if pick is None:
+            continue
+        k, ps = pick
+        st = wf['comps'][k]['stage']
+        spellings = [compile_ref(ps[0], ps[1], ps[2], ps[3])]
+        if ps[0] == st:
+            spellings.append(compile_ref(None, ps[1], ps[2], ps[3]))
+        for entry in ('concrete', 'direct'):
+            for text in spellings:
+                for sfx in ('', '/d/x.dat'):
+                    for place in ['variable', 'override'] + SLOTS:
+                        if place == 'override' and entry == 'direct':
+                            continue
+                        w2 = copy.deepcopy(wf)
+                        c = w2['comps'][k]
+                        if entry == 'direct':
+                            w2['entry'] = 'direct'
+                        if place == 'variable':
+                            c['cvars']['src'] = text + sfx
+                            c['args'] = (c['args'] + ' %(src)s').strip()
+                        elif place == 'override':
+                            w2['platforms'] = ['default', 'hpc']
+                            w2['pvars'] = {'hpc': {'gvars': {}, 'svars': {}}}
+                            w2['ctor'], w2['req'] = None, 'hpc'
+                            c['cvars']['src'] = 'none'
+                            c.setdefault('over', {}).setdefault('hpc', {}).setdefault('vars', {})['src'] = text + sfx
+                            c['args'] = (c['args'] + ' %(src)s').strip()
+                        else:
+                            c.setdefault('extra', {})[place] = text + sfx
+                        out.append(w2)
+        break
     return out
 
 
@@ -980,7 +1264,12 @@ def run(ctx):
                 '(workflowAttributes and variables), the object built for one platform (none/default/other) and the '
                 'expansion requested for one (unset/none/default/other, rarely empty or unknown), the graph built for '
                 'the requested platform; plus a fixed corpus and two systematic families (every spelling x entry point '
-                'of one aggregator; every constructor x requested platform pair of one workflow). non-trivial = at '
+                'of one aggregator; every constructor x requested platform pair of one workflow). (3) place - 30-40% of '
+                'all generated workflows also spell declared references (either spelling, with / without a path after the '
+                'method) in variables of the consumer used as %(v)s on its command line (also override.<platform>.variables) '
+                'and in 8 other places of the definition (command.executable / environment / interpreter, executors '
+                'payloads, resourceManager options); all of them are read back from every returned component; a third '
+                'systematic family: one reference x spelling x suffix x place x entry point. non-trivial = at '
                 'least two replica copies are produced and some component has references; distinct by the whole '
                 'workflow and entry')
     n = 1100 if ctx.tier == 'quick' else 12000
@@ -990,11 +1279,15 @@ def run(ctx):
     for k in range(n):
         mode = 'clean' if rng.random() < 0.35 else 'mixed'
         wf = gen_workflow(rng, mode)
+        if rng.random() < 0.3:
+            sprinkle(rng, wf)
         cases.append((wf, shuffled_order(rng, wf)))
     cases += [(wf, None) for wf in systematic(rng)]
     for k in range(nd):
         mode = 'clean' if rng.random() < 0.6 else 'mixed'
         wf = decorate(rng, gen_workflow(rng, mode))
+        if rng.random() < 0.4:
+            sprinkle(rng, wf)
         cases.append((wf, shuffled_order(rng, wf)))
     explore(ctx, cases)
 
